@@ -172,7 +172,7 @@ func (e *TemplateJoinExpr) Value(ctx *hcl.EvalContext) (cty.Value, hcl.Diagnosti
 		panic("TemplateJoinExpr got non-tuple tuple")
 	}
 	if !tuple.IsKnown() {
-		return cty.UnknownVal(cty.String), diags
+		return cty.UnknownVal(cty.String).WithSameMarks(tuple), diags
 	}
 
 	tuple, marks := tuple.Unmark()
